@@ -2,7 +2,7 @@
     Only property theorems here, each closed by [exact] of a lemma proved in PRounding.v.
     Spec functions (S_power2round, S_decompose, S_use_hint, S_make_hint) transcribe FIPS 204 Alg. 35-40
     (pairs are (low, high)); ALPHA g = 2*GAMMA2 g, MM g = (q-1)/ALPHA g = 44 or 16. *)
-From DV Require Import Base MReduce MRounding PRounding.
+From DV Require Import Base MReduce MRounding GenK PRounding PSrcRounding.
 
 Theorem C15_power2round : forall a, 0 <= a < Q ->
   exists a0 a1, power2round a = Ok (a0, a1) /\ a = a1 * 2 ^ 13 + a0 /\ - 2 ^ 12 < a0 <= 2 ^ 12 /\
@@ -31,6 +31,31 @@ Theorem C15_hint_roundtrip : forall g88 w1 a0, 0 <= w1 < MM g88 -> - ALPHA g88 <
              use_hint g88 ((w1 * ALPHA g88 + a0) mod Q) hb = Ok w1.
 Proof. exact hint_roundtrip. Qed.
 Print Assumptions C15_hint_roundtrip.
+
+(** The same, stated about the text of /repo/src/rounding.rs and rounding/lvl{2,3,5}.rs as the translator reads it on
+    this run (GenK.v): each copy computes the specification's Power2Round / Decompose / UseHint / MakeHint. *)
+Theorem C15_source_power2round : forall a, 0 <= a < Q -> src_power2round a = Ok (S_power2round a).
+Proof. exact src_power2round_spec. Qed.
+Print Assumptions C15_source_power2round.
+
+Theorem C15_source_decompose : forall a, 0 <= a < Q ->
+  src_lvl2_decompose a = Ok (S_decompose true a) /\ src_lvl3_decompose a = Ok (S_decompose false a) /\
+  src_lvl5_decompose a = Ok (S_decompose false a).
+Proof. exact src_decompose_spec. Qed.
+Print Assumptions C15_source_decompose.
+
+Theorem C15_source_use_hint : forall a h, 0 <= a < Q -> (h = 0 \/ h = 1) ->
+  src_lvl2_use_hint a h = Ok (S_use_hint true h a) /\ src_lvl3_use_hint a h = Ok (S_use_hint false h a) /\
+  src_lvl5_use_hint a h = Ok (S_use_hint false h a).
+Proof. exact src_use_hint_spec. Qed.
+Print Assumptions C15_source_use_hint.
+
+Theorem C15_source_make_hint : forall g88 z r r0 w1,
+  S_decompose g88 (r + z) = (r0, w1) -> - ALPHA g88 < r0 - z < ALPHA g88 ->
+  (if g88 then src_lvl2_make_hint (r0 - z) w1 else src_lvl3_make_hint (r0 - z) w1) = Ok (S_make_hint g88 z r) /\
+  (g88 = false -> src_lvl5_make_hint (r0 - z) w1 = Ok (S_make_hint g88 z r)).
+Proof. exact src_make_hint_spec. Qed.
+Print Assumptions C15_source_make_hint.
 
 (** ... and that bit is the specification's MakeHint *)
 Theorem C15_make_hint_spec : forall g88 z r r0 w1,
